@@ -1,5 +1,6 @@
 import RSV.Model.Asm
 import RSV.Model.Kernels
+import RSV.Model.AsmLeoKinds
 /-!
 # L1: a reflective checker for the generated amd64 kernels (core Lean only, executable)
 
@@ -435,8 +436,15 @@ def failReason (s : String) : String :=
     | _, none => "parse"
   | _ => "line format"
 
-/-- line protocol: `ok` or `fail <reason>` -/
+/-- line protocol: `ok` or `fail <reason>`.  Lines of the 600 matrix kernels (`<name> avx2|gfni|avxgfni …`) go to
+`checkChars`, lines of the remaining kernels (`<name> xor|galmul|dit28|dit48|dit2|dit4|mulgf16 …`) to
+`Leo.checkChars` -/
 def checkLine (s : String) : String :=
-  if checkLineB s then "ok" else "fail " ++ failReason s
+  if checkLineB s then "ok"
+  else if Leo.checkChars s.toList then "ok"
+  else "fail " ++
+    (match Parse.splitOn '|' s.toList with
+      | [h, _] => if (Parse.header? h).isSome then failReason s else Leo.failReason s.toList
+      | _ => "line format")
 
 end RSV.Asm
